@@ -310,7 +310,15 @@ func eval(c Case, sandbox string) hx.Result {
 		// the name is free again: writing the very Spec the cache loaded from it earlier (no refresh
 		// since the removal) must create the file anew - and once more after the file was replaced
 		// behind the cache's back by other content
-		for round, prep := range []func(){func() {}, func() { _ = os.WriteFile(target, []byte("replaced by someone else"), 0o644) }} {
+		kept := filepath.Join(sandbox, "kept-elsewhere"+filepath.Ext(target))
+		for round, prep := range []func(){func() {}, func() { _ = os.WriteFile(target, []byte("replaced by someone else"), 0o644) },
+			// ... and after someone put a symbolic link to a file kept elsewhere under the name: the write
+			// replaces the directory entry, the file elsewhere is none of its business
+			func() {
+				_ = os.Remove(target)
+				_ = os.WriteFile(kept, []byte(`{"cdiVersion":"1.0.0","kind":"kept.org/k","devices":[{"name":"k","containerEdits":{"env":["SRC=kept"]}}]}`), 0o644)
+				_ = os.Symlink(kept, target)
+			}} {
 			prep()
 			mid = snapshot(sandbox)
 			if err := cache.WriteSpec(rawSpec(c.Kind, "new"), name); err != nil {
@@ -328,6 +336,7 @@ func eval(c Case, sandbox string) hx.Result {
 		if err := cache.RemoveSpec(name); err != nil {
 			return fail("remove-fails", "final RemoveSpec failed: "+err.Error(), nil, nil)
 		}
+		_ = os.Remove(kept)
 		enc := "yaml"
 		if isJSON {
 			enc = "json"
@@ -432,7 +441,7 @@ func main() {
 	}
 	r.Extra["long_file_names"] = nLong
 	r.Rule = fmt.Sprintf("%d Spec kinds (dots in vendor/class, classes ending in .json/.yaml, one-letter) x transient ids = every string of 0..%d tokens over %q (plus the non-transient name) x %d directory configurations (1-3 directories, last present / missing / nested missing / non-clean / repeated) x decoys (same name in lower directories, siblings, old file at the target, neighbours named after the target: other extension, no extension, .bak/.tmp/hidden) x both name APIs, and (non-transient names and ids of <=1 byte) on a cache with a past: created for other directories, used to write and remove a Spec there, then reconfigured; "+
-		"sequence per case: WriteSpec, Refresh+GetDevice, WriteSpec again, RemoveSpec, RemoveSpec again, WriteSpec of the first Spec again (twice: name free, file replaced by someone else), RemoveSpec, with a snapshot (paths, types, content hashes) of a sandbox three levels above the Spec directories before and after every step. "+
+		"sequence per case: WriteSpec, Refresh+GetDevice, WriteSpec again, RemoveSpec, RemoveSpec again, WriteSpec of the first Spec again (three times: name free, file replaced by someone else, name taken by a symbolic link to a file kept elsewhere), RemoveSpec, with a snapshot (paths, types, content hashes) of a sandbox three levels above the Spec directories before and after every step. "+
 		"Oracle: name is one path component; exactly one file created/replaced at the model path with the model encoding; top precedence after refresh; remove deletes exactly that file; removing an absent name succeeds. Distinct by construction; all non-trivial",
 		len(kindsUnderTest), maxTok, idTokens, len(dirConfigs))
 	r.Assumptions = []string{"a name containing NUL cannot be stored by any file system: there the write must fail and must not touch any file"}
